@@ -159,7 +159,8 @@ theorem globSplit_plain (f : Flags) (isBytes : Bool) (s : List Char) (hp : Plain
   have hnb : needBase (SplitCfg.ofFlags f isBytes) [litPart s] = true := by
     have : (SplitCfg.ofFlags f isBytes).flags.extmatchbase = true := hem
     simp [needBase, this, litPart]
-  simp [withBase, hnb, hbase]
+  have hgs : (litPart s).isGlobstar = false := rfl
+  simp [withBase, hnb, hbase, hgs]
 
 /-! ### `WcParse`: a literal segment, with `matchbase` / `extmatchbase` still set in the state
 
